@@ -182,6 +182,47 @@ class Oracle:
                           {'other_version': v2, 'retag_only': retag_only(w, w4)})
                 break
 
+    def presence_pattern(self, cname, cls, v, full_obj, items, counts, note):
+        """A real object with a given presence pattern, built the way a caller can: take a decoded object that has
+        every field and clear the attributes of the absent fields.  If it encodes, its encoding must decode back
+        to an equal value (finds readers that are stricter than their writers)."""
+        import copy
+        c = self.ctx
+        try:
+            x = copy.deepcopy(full_obj)
+        except Exception:
+            c.count('oracle.pattern.uncopyable')
+            return
+        for it, n in zip(items, counts):
+            if n:
+                continue
+            name = '_' + it['field'] if hasattr(x, '_' + it['field']) else it['field']
+            if not hasattr(x, name):
+                c.count('oracle.pattern.no-attribute')
+                return
+            try:
+                setattr(x, name, [] if isinstance(getattr(x, name), list) else None)
+            except Exception:
+                c.count('oracle.pattern.setter-refused')
+                return
+        w, exc = impl_write_exc(x, v)
+        if w is None:
+            c.count('oracle.pattern.unencodable')      # the writer requires a cleared field: not a constructible value
+            return
+        self.n += 1
+        c.count('oracle.pattern.checked')
+        back, r = impl_read(cls, w, v)
+        witness = {'pattern': note, 'encoded': w.hex()}
+        if back is None or r != b'':
+            return self.fail(cname, v, 'read(write(x)):rejected', w, dict(witness, exc=r if back is None else 'leftover'),
+                             {'path': 'presence-pattern'})
+        if same_obj(x, back) is False:
+            self.fail(cname, v, 'read(write(x))!=x', w, dict(witness, x=repr(x)[:300], decoded=repr(back)[:300]), {'path': 'presence-pattern'})
+        if impl_write(back, v) != w:
+            self.fail(cname, v, 'write(read(write(x)))!=write(x)', w, witness, {'path': 'presence-pattern'})
+        if impl_write(x, v) != w:
+            self.fail(cname, v, 'second-encode-differs', w, witness, {'path': 'presence-pattern'})
+
     def constructor_path(self, cname, cls, v, obj, w, bs):
         """Rebuild the value through the public constructor from the decoded attributes; it must round trip too."""
         c = self.ctx
@@ -262,7 +303,14 @@ def struct_cases(ctx, doc, oracle, only=None):
             stats['free_items_max'] = max(stats['free_items_max'], k)
             others = [x for x in supported if x != v]
             valids = []
+            # an object that has every field (decoded from the all-present value), cleared field by field below
+            items_v = schema.active(cname, v)
+            full_counts = [1 if it['mult'] != 'Many' else 2 for it in items_v]
+            full_obj, _ = impl_read(cls, sg.encode(tag, gen.struct(cname, v, 0, full_counts)), v)
             for counts in vectors:
+                if full_obj is not None:
+                    oracle.presence_pattern(cname, cls, v, full_obj, items_v, counts,
+                                            {it['field']: n for it, n in zip(items_v, counts)})
                 val = gen.struct(cname, v, 0, counts)
                 bs = sg.encode(tag, val)
                 valids.append(val)
@@ -341,8 +389,28 @@ def refusal_probe(ctx, cname, cls, tag, v):
 
 
 # ------------------------------------------------------------------ seeds for the classes outside T: unit-test encodings
+def ttlv_structures(b, depth=0):
+    """every structure item (type 1) contained in the TTLV byte string b, at any depth, as its own byte string"""
+    out = []
+    pos, n = 0, len(b)
+    while pos + 8 <= n and depth < 12:
+        ty = b[pos + 3]
+        ln = struct.unpack('!I', b[pos + 4:pos + 8])[0]
+        if b[pos] != 0x42 or not (1 <= ty <= 10):
+            break
+        size = 8 + ln + ((8 - ln % 8) % 8 if ty != 1 else 0)
+        if pos + size > n:
+            break
+        if ty == 1:
+            out.append(b[pos:pos + size])
+            out += ttlv_structures(b[pos + 8:pos + size], depth + 1)
+        pos += size
+    return out
+
+
 def harvest_blobs(repo):
-    """byte-string literals passed to BytearrayStream(...) in kmip/tests/unit/core -> [(relative file, bytes)]"""
+    """TTLV encodings found as byte-string literals in kmip/tests/unit/core (whole literals and every structure
+    nested in them) -> [(relative file, bytes)]"""
     out = []
     root = Path(repo) / 'kmip' / 'tests' / 'unit' / 'core'
 
@@ -359,14 +427,21 @@ def harvest_blobs(repo):
             tree = ast.parse(p.read_text())
         except SyntaxError:
             continue
+        rel = str(p.relative_to(root))
+        inner = set()
         for n in ast.walk(tree):
-            if isinstance(n, ast.Call) and len(n.args) == 1 and not n.keywords:
-                fn = n.func.attr if isinstance(n.func, ast.Attribute) else getattr(n.func, 'id', None)
-                if fn == 'BytearrayStream':
-                    b = const_bytes(n.args[0])
-                    if b is not None and len(b) >= 8:
-                        out.append((str(p.relative_to(root)), b))
-    # de-duplicate, keep order
+            if isinstance(n, ast.BinOp):
+                for ch in (n.left, n.right):
+                    inner.add(id(ch))
+        for n in ast.walk(tree):
+            if id(n) in inner:
+                continue
+            b = const_bytes(n) if isinstance(n, (ast.Constant, ast.BinOp)) else None
+            if b is not None and len(b) >= 8 and b[0] == 0x42:
+                out.append((rel, b))
+                for sub in ttlv_structures(b):
+                    if sub != b:
+                        out.append((rel, sub))
     seen, uniq = set(), []
     for f, b in out:
         if (f, b) not in seen:
